@@ -59,6 +59,11 @@ CLAIMED["C03"] = dict(
     text="Two mechanisms that are functions of local state, proved on the real code for every file system and every stored state: (1) change detection -- one generic iteration of FileSystemWatcher._find_changed reports a path exactly when it appeared, disappeared, or (size or whole-second mtime differ) and (size or content hash differ), refreshes the remembered (mtime, size, hash) whenever the stat differed, and touches no other path; add/remove_watched_paths keep every watched path in the data map; (2) removal of stale diagnostics -- one generic iteration plus the tail of Errors.clear_errors_in_targets keep an error exactly when its target is not being re-checked (order preserved), keep the file blocked only if a kept error is a blocker, release dropped only-once messages, and touch no other file.",
     level_note="The property itself (daemon answers == full check for every edit history) is NOT decided: completeness of server/deps.py, astdiff, astmerge and aststrip is a relation between two whole analyses and is outside any per-function contract. Loops are verified by one generic iteration plus the statements after the loop (the iteration postconditions include the frame); their composition over all elements is the standard loop rule and is argued in DESIGN.md, not machine-checked.",
     technique="contract-based deductive verification: VC generation from the real AST (per-iteration contracts with frames, region contracts); SMT discharge (z3, cvc5)")
+CLAIMED["C18"] = dict(
+    engine="pyvc", category="proof", design_ref="DESIGN.md section 5 C18",
+    text="The path -> module half only, proved on the real mypy/find_sources.py for every file system (isfile / package roots / os.path.split / abspath are arbitrary functions): SourceFinder._crawl_up_helper, crawl_up_dir and crawl_up return (module, base) such that the file's directory is DERIVABLY package P below base -- derivable in the inductive relation 'each step up strips one path component whose name (minus a -stubs suffix) is an identifier and which has an __init__ file or namespace packages are on' -- and module = P for an __init__ file, P.stem otherwise; module_join and strip_py meet their string specifications. Recursive calls enter through the contract being proved (induction).",
+    level_note="The module -> path half (modulefinder.FindModuleCache, ~300 lines of search-path probing) is not under contract, so the inverse law itself and the 'directory vs file list vs -p' corollary are NOT decided. Maximality of the base directory (crawling does not stop early) is not part of the proved relation. functools.lru_cache on _crawl_up_helper is treated as transparent.",
+    technique="contract-based deductive verification: VC generation from the real AST; the package relation is an uninterpreted predicate constrained only by instances of its two defining rules; recursive calls by contract; SMT discharge (z3, cvc5)")
 CLAIMED["C08"] = dict(
     engine="frames", category="proof", design_ref="DESIGN.md section 5 C08",
     text="One clause only ('answers do not depend on what the subtype caches contain') as a frame condition on mypy/subtypes.py: every SubtypeContext flag, proper_subtype and every state.<global> read by SubtypeVisitor is a component of build_subtype_kind's key, and the type_state cache entry points are only called with a kind built by build_subtype_kind.",
@@ -95,5 +100,4 @@ NOT_APPLICABLE = {
     "C19": "validity of emitted stub text is a statement about running mypy/stubtest on the output (DESIGN.md 5 C19)",
     "C06": "not yet built in this round (bounded stand-in planned)",
     "C10": "not yet built in this round",
-    "C18": "not yet built in this round",
 }
